@@ -172,79 +172,87 @@ func measurementSuite() hlib.Suite {
 				for _, cleanup := range []time.Duration{0, 3 * time.Millisecond} {
 					for _, queued := range []bool{false, true} {
 						for _, ending := range endings {
-							fails := ending != "return"
-							if mode == "users" && queued {
-								continue
-							}
-							r.Eval()
-							input := fmt.Sprintf("mode=%s body=%s cleanup=%s queued-behind-busy-worker=%v body-ends-with=%s", mode, body, cleanup, queued, ending)
-							r.SampleCase(input)
-							rs := &hlib.RunSpec{Mode: mode, Quiet: true, CompletionTimeout: time.Second,
-								Opts: options.RunOptions{MaxDuration: 10 * time.Second, Concurrency: 1, MaxIterations: 3, IgnoreDropped: true}}
-							if mode == "constant" {
-								rs.Flags = map[string]string{"rate": "1/100ms", "distribution": "none"}
-								if queued {
-									// three requests at once for one worker: the second and third wait 1x and 2x the body+cleanup
-									rs.Flags["rate"] = "3/100ms"
-								}
-							}
-							rs.ScenarioFn = func(t *f1testing.T) f1testing.RunFn {
-								return func(t *f1testing.T) {
-									if cleanup > 0 {
-										t.Cleanup(func() { vtime.Sleep(cleanup) })
-									}
-									vtime.Sleep(body)
-									end(t, ending)
-								}
-							}
-							res := hlib.RunOnce(rs, -1, 0, 60*time.Second)
-							if res.BuildErr != nil {
-								panic(res.BuildErr)
-							}
-							if res.Out.Status != vrt.StOK {
-								r.Fail("C17/run-broken", mode, res.Out.Status.String()+res.Out.Crash, input)
-								continue
-							}
-							label := "success"
-							if fails {
-								label = "fail"
-							}
-							var cnt uint64
-							var sum float64
-							mfs, _ := res.Reg.Gather()
-							for _, mf := range mfs {
-								if mf.GetName() != "form3_loadtest_iteration" {
+							for _, conc := range []int{1, 3} {
+								fails := ending != "return"
+								if mode == "users" && queued {
 									continue
 								}
-								for _, m := range mf.GetMetric() {
-									ok := false
-									for _, l := range m.GetLabel() {
-										if l.GetName() == "result" && l.GetValue() == label {
-											ok = true
+								r.Eval()
+								input := fmt.Sprintf("mode=%s body=%s (x1, x2, x3 by iteration) cleanup=%s queued-behind-busy-worker=%v body-ends-with=%s concurrency=%d", mode, body, cleanup, queued, ending, conc)
+								r.SampleCase(input)
+								rs := &hlib.RunSpec{Mode: mode, Quiet: true, CompletionTimeout: time.Second,
+									Opts: options.RunOptions{MaxDuration: 10 * time.Second, Concurrency: conc, MaxIterations: 3, IgnoreDropped: true}}
+								var ownTime float64 // what the bodies took by their own clock
+								if mode == "constant" {
+									rs.Flags = map[string]string{"rate": "1/100ms", "distribution": "none"}
+									if queued {
+										// three requests at once for one worker: the second and third wait 1x and 2x the body+cleanup
+										rs.Flags["rate"] = "3/100ms"
+									}
+								}
+								rs.ScenarioFn = func(t *f1testing.T) f1testing.RunFn {
+									return func(t *f1testing.T) {
+										if cleanup > 0 {
+											t.Cleanup(func() { vtime.Sleep(cleanup) })
+										}
+										// iterations of different lengths: with several workers they overlap and finish out of order
+										var n int
+										fmt.Sscan(t.Iteration, &n)
+										d := body * time.Duration(1+(n+2)%3)
+										ownTime += float64(d)
+										vtime.Sleep(d)
+										end(t, ending)
+									}
+								}
+								res := hlib.RunOnce(rs, -1, 0, 60*time.Second)
+								if res.BuildErr != nil {
+									panic(res.BuildErr)
+								}
+								if res.Out.Status != vrt.StOK {
+									r.Fail("C17/run-broken", mode, res.Out.Status.String()+res.Out.Crash, input)
+									continue
+								}
+								label := "success"
+								if fails {
+									label = "fail"
+								}
+								var cnt uint64
+								var sum float64
+								mfs, _ := res.Reg.Gather()
+								for _, mf := range mfs {
+									if mf.GetName() != "form3_loadtest_iteration" {
+										continue
+									}
+									for _, m := range mf.GetMetric() {
+										ok := false
+										for _, l := range m.GetLabel() {
+											if l.GetName() == "result" && l.GetValue() == label {
+												ok = true
+											}
+										}
+										if ok {
+											cnt += m.GetSummary().GetSampleCount()
+											sum += m.GetSummary().GetSampleSum()
 										}
 									}
-									if ok {
-										cnt += m.GetSummary().GetSampleCount()
-										sum += m.GetSummary().GetSampleSum()
-									}
 								}
-							}
-							if cnt != 3 {
-								r.Fail("C17/measurement", "count", fmt.Sprintf("%d samples labelled %s, want 3", cnt, label), input)
-								continue
-							}
-							// default schedule, nothing slow: exactly the body's own duration
-							if want := 3 * float64(body); sum != want {
-								kind := "shorter-than-body"
-								if sum > want {
-									kind = "includes-more-than-body"
-									if sum >= want+3*float64(cleanup) && cleanup > 0 {
-										kind = "includes-cleanup"
-									}
+								if cnt != 3 {
+									r.Fail("C17/measurement", "count", fmt.Sprintf("%d samples labelled %s, want 3", cnt, label), input)
+									continue
 								}
-								r.Fail("C17/measurement", kind, fmt.Sprintf("exported durations sum to %.0f ns for three bodies of %d ns", sum, body), input)
+								// default schedule, nothing slow: exactly the body's own duration
+								if want := ownTime; sum != want {
+									kind := "shorter-than-body"
+									if sum > want {
+										kind = "includes-more-than-body"
+										if sum >= want+3*float64(cleanup) && cleanup > 0 {
+											kind = "includes-cleanup"
+										}
+									}
+									r.Fail("C17/measurement", kind, fmt.Sprintf("exported durations sum to %.0f ns, the three bodies took %.0f ns by their own clock", sum, ownTime), input)
+								}
+								r.Distinct(input)
 							}
-							r.Distinct(input)
 						}
 					}
 				}
